@@ -32,7 +32,7 @@ CHECKS = {
         "model-based stateful testing: Hypothesis RuleBasedStateMachine histories + exhaustive enumeration of short "
         "histories, each operation compared with the same operation in a fresh process-state (fork-server child), plus "
         "step invariants",
-        "Histories of build / evaluate-common / evaluate-group / set-config / model_description / rebuild over 13 formulas "
+        "Histories of build / evaluate-common / evaluate-group / set-config / model_description / rebuild over 15 formulas "
         "x 4 frames (one with unseen levels, one with the shape of the training frame) are executed in one process; every "
         "result must equal the result of that single operation in a pristine child, and after every step the training "
         "matrices of all live designs, every earlier result array, the caller's frames (values, dtypes, index, column "
